@@ -260,6 +260,13 @@ VWithFieldBroadcast(v, T, new, vals) ==
        \* (left-broadcasting INTO a fixed-size dimension is refused by this version unless its size is 1)
        IF HasRegT(T) THEN May(r) ELSE Ok(r)
 
+\* ak.with_field(ak.zip((x, x, x), depth_limit=1), vals, str(slot)): overwriting an EXISTING slot of a tuple.  After it, reading
+\* that slot gives the value and every other slot reads what it read before (the recorded result names its fields by slot number,
+\* in slot order: whether the result is still a tuple, and in which order it stores the fields, is not judged)
+VWithSlot(v, T, slot, vals) ==
+  IF T.k = "opt" \/ Len(vals) # Len(v.xs) THEN Unspec
+  ELSE Ok(VList([k \in 1..Len(v.xs) |-> VRec(<<"0", "1", "2">>, [q \in 1..3 |-> IF q = slot + 1 THEN VInt(vals[k]) ELSE v.xs[k]])]))
+
 \* ---------------------------------------------------------------- unflatten(flatten(x, axis=1), num(x, axis=1)) = x   (C05)
 VUnflattenLaw(v, T) == IF T.k \in {"var", "reg"} THEN Ok(v) ELSE Unspec     \* "when x has no missing lists at that level"
 =============================================================================
